@@ -319,6 +319,10 @@ def scenarios(ctx):
                                                              seg("S2", "Muss", [ft("D3", "gamma", ["901"])])]), rc, {"901": "eps"}))
     S.append(TreeScenario("deep", deep([grp("G1", "Muss", [seg("S1", "Muss", [ft("D1", "alpha", ["901"]), ft("D2", "beta", ["902"])])]),
                                         grp("G2", "Soll [1]", [seg("S2", "Muss [2]", [ft("D3", "gamma", ["901"]), ft("D4", "delta", ["902"])])])]), rc, {"901": "alpha", "902": "delta"}))
+    # inputs with surrounding white space are inputs of their own: "alpha " is not "alpha"
+    S.append(TreeScenario("deep-padded-inputs", deep([grp("G1", "Muss", [seg("S1", "Muss", [ft("D1", "alpha ", ["901"]), ft("D2", " beta", ["902"]), ft("D3", "gamma\n", ["903"]),
+                                                                                             ft("D4", "\tdelta", ["901"])])])]), rc, {"901": "alpha ", "902": "beta", "903": "gamma\n"}))
+    S.append(TreeScenario("seg-padded-inputs", seg("S", "Muss", [ft("D1", "alpha\xa0", ["901"]), ft("D2", "alpha", ["901"]), ft("D3", " ", ["902"])]), rc, {"901": "alpha", "902": " "}))
     S.append(TreeScenario("deep5", deep([grp("G1", "Muss", [seg("S1", "Muss", [ft("D1", "t1", ["901"]), ft("D2", "t2", ["901"]), ft("D3", "t3", ["901"])])]),
                                          grp("G2", "Muss", [grp("G3", "Muss", [seg("S2", "Muss", [ft("D4", "t4", ["901"])])]), seg("S3", "Muss", [ft("D5", "t5", ["901"])])])]), rc, {"901": "t4"}))
     # random segments: 2-5 elements, 1-2 format constraints each
